@@ -45,25 +45,30 @@ def errStr : Err → String
   | .playerOldWithoutNew => "PlayerOldWithoutNew"
   | .inputDiffWithoutNew => "InputDiffWithoutNew"
 
+/-- What `player_pos(cid)` / `input(cid)` return after the last call, for every client id with an
+entry, in ascending order of the client id. -/
+def accessStr (a : Access) : String :=
+  let ps := (a.players.toArray.qsort (fun x y => x.1 < y.1)).toList.map fun (c, (x, y)) => s!"{c}:{x}:{y}"
+  let is := (a.inputs.toArray.qsort (fun x y => x.1 < y.1)).toList.map fun (c, v) =>
+    ":".intercalate (toString c :: v.map toString)
+  let j (l : List String) : String := if l.isEmpty then "-" else ",".intercalate l
+  s!"P {j ps} I {j is}"
+
 def outputStr (o : Output) : String :=
   match o.final with
   | .outOfFuel => "model-out-of-fuel"
-  | .oom => "model-oom"
   | f =>
     let fs := match f with
       | .finished => "end"
       | .err e => "err:" ++ errStr e
       | .cbErr => "err:Cb"
       | _ => "?"
-    s!"{fs} {o.cidsEnd} {o.items.length} {if o.items.isEmpty then "-" else " ".intercalate (o.items.map itemStr)}"
-
-/-- 2^24 `VecMap` slots: far above every client id the generator produces -/
-def memCids : Nat := 16777216
+    s!"{fs} {o.cidsEnd} {o.items.length} {if o.items.isEmpty then "-" else " ".intercalate (o.items.map itemStr)} {accessStr o.access}"
 
 /-- The header's JSON content is outside the model: the request says which version the (valid)
 header text carries. -/
 def envOf (ver : String) : Option Env :=
-  (parseInt ver).map fun v => { json := fun _ => .ok v, memCids := memCids }
+  (parseInt ver).map fun v => { json := fun _ => .ok v }
 
 def parseNatList (s : String) : Option (List Nat) :=
   if s.isEmpty then some [] else (s.splitOn ",").mapM parseNat
